@@ -370,20 +370,22 @@ func runC11(p *an.Prog, r *an.Run, tier string) {
 		bad = append(bad, "expected one UpdateNodePeers and one NodePeers call")
 	} else {
 		stores := map[string][]ssa.Value{}
-		an.AllInstrs(upd, func(in ssa.Instruction) {
-			if st, ok := in.(*ssa.Store); ok {
-				if fv := an.FieldOf(st.Addr); fv != nil && (fv.Name() == "InvalidPeers" || fv.Name() == "ActivePeers") {
-					if n := structOfFieldAccess(st.Addr); n != nil && n.Obj().Name() == "UpdateResponse" {
-						stores[fv.Name()] = append(stores[fv.Name()], st.Val)
+		for _, rf := range regionFuncs(p, upd) {
+			an.AllInstrs(rf, func(in ssa.Instruction) {
+				if st, ok := in.(*ssa.Store); ok {
+					if fv := an.FieldOf(st.Addr); fv != nil && (fv.Name() == "InvalidPeers" || fv.Name() == "ActivePeers") {
+						if n := structOfFieldAccess(st.Addr); n != nil && n.Obj().Name() == "UpdateResponse" {
+							stores[fv.Name()] = append(stores[fv.Name()], st.Val)
+						}
 					}
 				}
-			}
-		})
+			})
+		}
 		fromCall := func(d *an.Deriv, c ssa.CallInstruction) bool {
 			return derivesFromCall(d, c.(*ssa.Call))
 		}
-		di := p.Derives(0, stores["InvalidPeers"]...)
-		da := p.Derives(0, stores["ActivePeers"]...)
+		di := p.DerivesIn(upd, 3, stores["InvalidPeers"]...)
+		da := p.DerivesIn(upd, 3, stores["ActivePeers"]...)
 		if len(stores["InvalidPeers"]) == 0 || !fromCall(di, updPeers[0]) {
 			bad = append(bad, "InvalidPeers does not derive from the inactive list returned by UpdateNodePeers")
 		}
